@@ -47,6 +47,51 @@ def hg_recurrence(V, ks, acc, t, target, gamma, kappa, t0):
     return dict(step_size=V.exp(x), error_sum=H, log_avg_step_size=xbar, mu=ks["mu"])
 
 
+def replay_da_step(ob, model, rng):
+    """the real da_step against the recurrence in float64 at the solver's point and at far-field states (tiny / huge step sizes, long runs of
+    rejections or acceptances); the step size is compared on the log scale so that very small values are not lost in an absolute tolerance"""
+    f = da_fn("step")
+    pts = []
+    if model is not None:
+        try:
+            from ..harness import model_value
+            v = {n: model_value(model, z3.Real(n)) for n in ("ss", "es", "la", "mu", "acc", "target", "gamma", "kappa")}
+            ti = {n: model_value(model, z3.Int(n)) for n in ("t", "t0")}
+            if all(x is not None for x in list(v.values()) + list(ti.values())) and v["ss"] > 0 and v["gamma"] > 0:
+                pts.append((v["ss"], v["es"], v["la"], v["mu"], v["acc"], int(ti["t"]), v["target"], v["gamma"], v["kappa"], int(ti["t0"])))
+        except Exception:
+            pass
+    for ss in (1e-9, 1e-3, 0.5, 1e4):
+        for es in (0.0, 6.0, -6.0):
+            for acc in (0.0, 0.3, 1.0):
+                for t in (0, 7):
+                    pts.append((ss, es, -0.2, float(np.log(10 * ss)), acc, t, 0.8, 0.05, 0.75, 10))
+    worst = None
+    for p_ in pts:
+        ss, es, la, mu, acc, t, target, gamma, kappa, t0 = [float(x) for x in p_]
+        m = t + 1.0
+        H = es + (target - acc)
+        x = mu - (np.sqrt(m) / gamma) / (m + t0) * H
+        eta = m ** (-kappa)
+        want = dict(log_step=x, error_sum=H, log_avg_step_size=eta * x + (1 - eta) * la, mu=mu)
+        if not (-80.0 < x < 80.0):
+            continue                       # outside float32's exponent range the step size legitimately under-/overflows
+        out = f(*[jnp.asarray(v_, dtype=jnp.float32) for v_ in p_[:5]], int(p_[5]), *[float(v_) for v_ in p_[6:9]], int(p_[9]))
+        got = {k: float(np.asarray(v_, dtype=np.float64)) for k, v_ in out.items()}
+        dev = {"log(step_size)": abs((np.log(got["step_size"]) if got["step_size"] > 0 else -np.inf) - x) / (1 + abs(x))}
+        for k in ("error_sum", "log_avg_step_size", "mu"):
+            dev[k] = abs(got[k] - want[k]) / (1 + abs(want[k]))
+        d = max(dev.values())
+        if worst is None or d > worst[0]:
+            worst = (d, dict(step_size=ss, error_sum=es, log_avg_step_size=la, mu=mu, acceptance_prob=acc, t=int(t), target=target, gamma=gamma, kappa=kappa, t0=int(t0)),
+                     dict(got=got, recurrence=dict(step_size=float(np.exp(x)), **{k: want[k] for k in ("error_sum", "log_avg_step_size", "mu")}), relative_deviation=dev))
+    if worst is None:
+        return dict(reproduced=False, note="no probe state inside float32's exponent range")
+    return dict(reproduced=bool(worst[0] > 1e-3), inputs=worst[1], observed=worst[2],
+                note="real da_step vs the Hoffman-Gelman recurrence in float64 (step size compared on the log scale)" if worst[0] > 1e-3 else
+                "real da_step agrees with the recurrence at the solver's point and at 72 far-field states")
+
+
 def ite_leaves(t):
     """the branch values of a (nested) if-then-else term: candidates for generalisation"""
     if z3.is_app_of(t, z3.Z3_OP_ITE):
@@ -186,7 +231,7 @@ def main():
     def step_goal(V):
         want = hg_recurrence(V, ks_in, R["acc"], T["t"], R["target"], R["gamma"], R["kappa"], T["t0"])
         return pre, z3.And(*[cells(V.out[f])[0] == want[f] for f in FIELDS])
-    obs.append(Obligation("da_step = Hoffman-Gelman/Stan recurrence", [encs["step"]], step_goal))
+    obs.append(Obligation("da_step = Hoffman-Gelman/Stan recurrence", [encs["step"]], step_goal, replay=replay_da_step))
 
     def init_goal(V):
         return pre, z3.And(cells(V.out["error_sum"])[0] == 0, cells(V.out["log_avg_step_size"])[0] == V.log(R["ss"]),
